@@ -616,6 +616,12 @@ class Interp(ExprMixin):
             if name in Z3_OPS:
                 if name in Z3_VARIADIC and len(targs) == 1 and targs[0][0] in ("list", "tuple"):
                     return app(name, *targs[0][1])
+                if name in Z3_VARIADIC and len(targs) == 1 and targs[0][0] not in ("list", "tuple", "starred"):
+                    ty = self.typeof(targs[0])
+                    if ty is not None and ty[0] == "list":
+                        self._loop_counter += 1
+                        lp = ("loop", self._loop_counter, "spread", targs[0])
+                        return app(name, ("each", (lp,), (), ("elem", lp)))
                 if name in Z3_VARIADIC and len(targs) == 1 and targs[0][0] == "starred" and targs[0][1][0] in ("list", "tuple"):
                     return app(name, *targs[0][1][1])
                 if name in Z3_VARIADIC and len(targs) == 1 and targs[0][0] == "starred":
